@@ -46,6 +46,9 @@ def main(ctx):
     fw.translate_and_build(ctx, ["WrapModel", "wrapmodel"])
     fw.audit(ctx, THEOREM_MODULES)
     res = fw.run_cases(case, [(ctx.seed, dict(p_template=0.6))] * ctx.scale(260, 6000))
+    # re-opened namespaces (tiny name pool) holding templates and typedefs of them, nested instantiation arguments
+    res += fw.run_cases(case, [(ctx.seed + 17, dict(p_template=0.8, ns_pool=["a", "b"], n_typedefs=4, max_depth=2, max_decls=4,
+                                                    extra_kinds=['ns', 'cls']))] * ctx.scale(120, 2500))
     for r in res:
         if "crash" in r:
             raise RuntimeError(r["crash"])
